@@ -222,6 +222,12 @@ def vol_index_entries(F, S):
         out.append(ok("R-INIT", inst, ph.loc(pb[0]["id"]), ph.qn, "the entry appended has every field assigned except the block offset, which is filled in below", "missing only: %s" % fmt_paths(missing)))
     else:
         out.append(bad("R-INIT", inst, ph.loc(pb[0]["id"]), ph.qn, "the entry appended has every field assigned except the block offset, which is filled in below", "unassigned: %s" % fmt_paths(missing)))
+    # the offsets may be laid out in a helper PrepareHeader is split into
+    from ..through import closure
+    ph_entry = ph
+    hosts = [f for f in closure(F, ph) if any(is_store(nd) and f.term(f.kids(nd["id"])[0])[0] == "mem" and f.term(f.kids(nd["id"])[0])[2] == "dataBlockOffset" for nd in f.nodes)]
+    if len(hosts) == 1:
+        ph = hosts[0]
     stores = [nd for nd in ph.nodes if is_store(nd) and ph.term(ph.kids(nd["id"])[0])[0] == "mem" and ph.term(ph.kids(nd["id"])[0])[2] == "dataBlockOffset"]
     idxs = sorted(repr(ph.term(ph.kids(nd["id"])[0])[1][2]) for nd in stores if ph.term(ph.kids(nd["id"])[0])[1][0] == "idx")
     loops = [nd for nd in ph.nodes if nd["k"] == "ForStmt" and any(s["id"] in ph.subtree(nd["body"]) for s in stores)]
@@ -231,7 +237,7 @@ def vol_index_entries(F, S):
     if good:
         lp = loops[0]
         d0 = ph.n(lp["init"])["decls"][0]
-        vi = ("var", ph.params[0]["n"], ph.params[0]["d"])
+        vi = [("var", p["n"], p["d"]) for p in ph.params if "CreateVolumeInfo" in (p.get("ct") or "")][0]
         ct = ph.term(lp["cond"])
         good = ph.term(d0["init"]) == ("const", 1) and ct[0] == "op" and ct[1] == "<" and \
             ct[3] == F.method_value("OP2Utility::Archive::VolFile::CreateVolumeInfo::fileCount", vi)
